@@ -700,6 +700,9 @@ def directed_c03():
     D.append(("closure_in_loop", [("decl", "s", "0"), ("for", ("decl", "i", "0"), "i < n", ("inc", "i"), [("raw", "add := func() { s += i + a }"), Y("s + 1"), ("raw", "add()"), Y("s + 2")]), Y("s + 3")]))
     D.append(("range_shadow", [("decl", "x", "a + 1"), ("range", "x", "y", ":=", "[]int{a, b}", [Y("x + y + 2"), ("assign", "y", "y + x"), Y("y + 3")]), Y("x + 4")]))
     D.append(("tswitch_scope", [("decl", "v", "a + 1"), ("raw", "var t any = b\nif g1 {\n\tt = \"s\"\n}"), ("tswitch", "v", "t", [("int", [Y("v + 2"), ("assign", "v", "v + 1"), Y("v + 3")]), ("string", [Y("len(v) + 4")])], None), Y("v + 5")]))
+    D.append(("yield_post_body_shadows_trivial_end", [("decl", "x", "a"), ("decl", "c", "0"), ("for", None, "c < n", ("yield", "x + 100"), [("inc", "c"), ("decl", "x", "b + 1"), ("effv", 5, "x")]), Y("x + 7")]))
+    D.append(("yield_post_body_shadows_yield_then_trivial", [("decl", "x", "a"), ("decl", "c", "0"), ("for", None, "c < n", ("yield", "x + 100"), [("inc", "c"), ("decl", "x", "b + 1"), Y("x + 2"), ("effv", 5, "x")]), Y("x + 7")]))
+    D.append(("yieldfrom_post_body_shadows", [("decl", "x", "a"), ("decl", "c", "0"), ("for", None, "c < n", ("yieldfrom", "H2(x)"), [("inc", "c"), ("decl", "x", "b + 1"), ("effv", 5, "x")]), Y("x + 7")]))
     D.append(("init_after_yield", [Y("a + 1"), ("for", ("decl", "x", "a"), "x < a + n", ("inc", "x"), [Y("x + 2")]), ("decl", "x", "b"), Y("x + 3")]))
     D.append(("if_else_scopes", [("decl", "x", "a"), ("if", "g1", [("decl", "x", "b + 1"), Y("x + 2")], [("assign", "x", "x + 3"), Y("x + 4")]), Y("x + 5")]))
     return D
@@ -712,7 +715,7 @@ def plan_C03(ctx):
         rng = random.Random(ctx.seed * 977 + 3)
         n = 0
         for name, body in directed_c03():
-            corp.add(gen.Program("d_%s" % name, body, named_result=(n % 2 == 0), family="scp", tags={"directed:" + name}))
+            corp.add(gen.Program("d_%s" % name, body, helpers=C01_HELPERS if "H2(" in repr(body) else "", named_result=(n % 2 == 0), family="scp", tags={"directed:" + name}))
             n += 1
         want = ctx.q(260, 2200)
         tries = 0
